@@ -41,6 +41,7 @@ class FuncInfo:
     module: Module
     node: ast.FunctionDef
     cls: "ClassInfo | None" = None
+    inherited_from: "ClassInfo | None" = None      # set on the copy a subclass gets of a private base's method
 
     @property
     def name(self):
@@ -148,6 +149,44 @@ class Project:
             self._imports(m)
             self.modules[name] = m
             self._index(m)
+        self._flatten_private_bases()
+
+    # ------------------------------------------------------------------
+    def _flatten_private_bases(self):
+        """Methods and class-level names a class inherits from a *private* package base (a mixin `_X`, an extracted
+        `_XBase`) are presented as the class's own (a FuncInfo copy with cls = the subclass): moving code into a
+        private base is an implementation detail, and every rule keyed on 'methods of class C' keeps seeing it."""
+        done = set()
+
+        def flatten(ci):
+            if id(ci) in done:
+                return
+            done.add(id(ci))
+            for b in ci.bases:
+                for bc in self.classes.get(b, []):
+                    if not bc.name.startswith("_") or bc is ci:
+                        continue
+                    flatten(bc)
+                    for mname, bm in bc.methods.items():
+                        if mname not in ci.methods:
+                            fi = FuncInfo(f"{ci.name}.{mname}", bm.module, bm.node, ci)
+                            fi.inherited_from = bc
+                            ci.methods[mname] = fi
+                            self.all_funcs.append(fi)
+                    for k, v in bc.assigns.items():
+                        ci.assigns.setdefault(k, v)
+                    for k, v in bc.annots.items():
+                        ci.annots.setdefault(k, v)
+        used_as_base = set()
+        for lst in list(self.classes.values()):
+            for ci in lst:
+                flatten(ci)
+                for b in ci.bases:
+                    for bc in self.classes.get(b, []):
+                        if bc.name.startswith("_") and bc is not ci:
+                            used_as_base.add(id(bc))
+        # the private base's own FuncInfos are analysed through the copies of its subclasses only
+        self.all_funcs = [f for f in self.all_funcs if not (f.cls is not None and id(f.cls) in used_as_base)]
 
     # ------------------------------------------------------------------
     def _imports(self, m: Module):
